@@ -126,12 +126,30 @@ where
     let mut a_ = a.to_owned();
     let mut b_ = b.to_owned();
 
+    // pivots are chosen relative to the largest entry of their own row (implicit row scaling), so
+    // that the choice does not depend on the units in which individual equations are expressed
+    let mut s_: Array1<f64> = a_.map_axis(Axis(1), |row| {
+        let m = row.iter().fold(0.0_f64, |m, v| m.max(v.abs()));
+        if m > 0.0_f64 {
+            m
+        } else {
+            1.0_f64
+        }
+    });
+
     for j in 0..n {
-        let k = argabsmax(a_.slice(s![j.., j])) + j;
+        let col_: Array1<f64> = a_
+            .slice(s![j.., j])
+            .iter()
+            .zip(s_.slice(s![j..]).iter())
+            .map(|(v, s)| v / s)
+            .collect();
+        let k = argabsmax(col_.view()) + j;
         if j != k {
             // define row swaps j <-> k  (note that k > j by definition)
             row_swap(&mut a_, &j, &k);
             el_swap(&mut b_, &j, &k);
+            s_.swap(j, k);
         }
         // perform reduction on subsequent rows below j
         for l in (j + 1)..n {
